@@ -378,3 +378,281 @@ Lemma witness_new_clean :
   let '(tr, w, done) := run 100 (witness_world GuardNew) [] in
   done = true /\ w_prim w = [] /\ w_sec w = [] /\ quiescent_clean w = true.
 Proof. vm_compute. repeat split; reflexivity. Qed.
+
+(** ------------------------------------------------------------------ *)
+(** (4) Clause 2: a component that drains its inputs, in an arbitrary environment.
+    This part does not involve TickNow at all (NotifyRecv / NotifyPortFree use TickLater
+    resp. ScheduleWakeNow), so it holds for the code as it is. *)
+Inductive dkind := DTick | DEvent.
+
+Record dstate := mk_ds {
+  ds_kind : dkind;
+  ds_ports : list port;      (* the component's own ports *)
+  ds_sched : sched;          (* DTick: its TickScheduler *)
+  ds_pend : option N;        (* DEvent: pendingWakeup (None = MaxUint64) *)
+  ds_q : list N;             (* its pending tick / wake-up events in the engine *)
+  ds_now : N;
+  ds_dirty : bool }.         (* ghost: notified since its last activation started *)
+
+Inductive dact :=
+| DDeliver (i : nat) (m : omsg)        (* a connection delivers into own port i *)
+| DHandle (t : N) (ns : list nat) (extra : bool)
+      (* the engine handles its earliest pending event; the activation retrieves ns[i]
+         messages from port i (whatever else it does: [extra] = "made other progress") *)
+| DAdvance (t : N)
+| DNotify.                              (* any other NotifyRecv / NotifyPortFree *)
+
+(** NotifyRecv / NotifyPortFree *)
+Definition dnotify (st : dstate) : dstate :=
+  match ds_kind st with
+  | DTick =>
+      let '(s', ev) := tick_later (ds_now st) (ds_sched st) in
+      mk_ds DTick (ds_ports st) s' (ds_pend st) (ds_q st ++ olist ev) (ds_now st) true
+  | DEvent =>
+      let go := mk_ds DEvent (ds_ports st) (ds_sched st) (Some (ds_now st)) (ds_q st ++ [ds_now st]) (ds_now st) true in
+      match ds_pend st with
+      | Some p => if p <=? ds_now st
+                  then mk_ds DEvent (ds_ports st) (ds_sched st) (ds_pend st) (ds_q st) (ds_now st) true
+                  else go
+      | None => go
+      end
+  end.
+
+Fixpoint retrieve_n (n : nat) (p : port) : option port :=
+  match n with
+  | O => Some p
+  | S n' => match retrieve_incoming p with Ok _ p' _ => retrieve_n n' p' | _ => None end
+  end.
+
+Fixpoint retrieve_all (ns : list nat) (ps : list port) : option (list port) :=
+  match ns, ps with
+  | n :: ns', p :: ps' =>
+      match retrieve_n n p, retrieve_all ns' ps' with
+      | Some p', Some r => Some (p' :: r)
+      | _, _ => None
+      end
+  | [], [] => Some []
+  | _, _ => None
+  end.
+
+Definition in_len (p : port) : nat := length (content (p_in p)).
+
+(** "drains its inputs": a ticking component takes at least one message from every
+    non-empty input per tick; an event-driven one empties every input per wake-up *)
+Definition drains_ok (k : dkind) (ns : list nat) (ps : list port) : bool :=
+  (length ns =? length ps)%nat &&
+  forallb (fun np => match k with
+                     | DTick => (in_len (snd np) =? 0)%nat || (1 <=? fst np)%nat
+                     | DEvent => (in_len (snd np) <=? fst np)%nat
+                     end) (combine ns ps).
+
+Definition took_any (ns : list nat) (ps : list port) : bool :=
+  existsb (fun np => negb (in_len (snd np) =? 0)%nat && (1 <=? fst np)%nat) (combine ns ps).
+
+Definition dstep (st : dstate) (a : dact) : option dstate :=
+  match a with
+  | DDeliver i m =>
+      match nth_error (ds_ports st) i with
+      | Some p =>
+          match deliver m p with
+          | Ok _ p' ns =>
+              let st' := mk_ds (ds_kind st) (set_nth i p' (ds_ports st)) (ds_sched st) (ds_pend st)
+                               (ds_q st) (ds_now st) (ds_dirty st) in
+              Some (if has_notif NRecv ns then dnotify st' else st')
+          | _ => None
+          end
+      | None => None
+      end
+  | DHandle t ns extra =>
+      if existsb (N.eqb t) (ds_q st) && forallb (N.leb t) (ds_q st) && drains_ok (ds_kind st) ns (ds_ports st) then
+        match retrieve_all ns (ds_ports st) with
+        | Some ps' =>
+            let st' := mk_ds (ds_kind st) ps' (mark_handled (ds_sched st) t) None
+                             (remove1 t (ds_q st)) t false in
+            match ds_kind st with
+            | DTick => Some (if took_any ns (ds_ports st) || extra then dnotify st' else st')  (* progress -> TickLater *)
+            | DEvent => Some st'
+            end
+        | None => None
+        end
+      else None
+  | DAdvance t =>
+      if (ds_now st <=? t) && forallb (N.leb t) (ds_q st)
+      then Some (mk_ds (ds_kind st) (ds_ports st) (ds_sched st) (ds_pend st) (ds_q st) t (ds_dirty st))
+      else None
+  | DNotify => Some (dnotify st)
+  end.
+
+Fixpoint dsteps (st : dstate) (h : list dact) : option dstate :=
+  match h with
+  | [] => Some st
+  | a :: r => match dstep st a with Some st' => dsteps st' r | None => None end
+  end.
+
+Definition unread (ps : list port) : Prop := exists p, In p ps /\ in_len p <> 0%nat.
+
+Definition dcore (st : dstate) : Prop :=
+  Forall (fun p => p_has_comp p = true) (ds_ports st) /\
+  (forall x, In x (ds_q st) -> ds_now st <= x) /\
+  match ds_kind st with
+  | DTick => sched_inv (ds_sched st) (ds_q st) (ds_now st)
+  | DEvent => forall p, ds_pend st = Some p -> In p (ds_q st)
+  end /\
+  (ds_dirty st = true -> ds_q st <> []).
+
+Definition dinv (st : dstate) : Prop :=
+  dcore st /\ (unread (ds_ports st) -> ds_dirty st = true).
+
+(** a notification is never lost: afterwards an event of this component is pending *)
+Lemma dnotify_core st : dcore st ->
+  dcore (dnotify st) /\ ds_dirty (dnotify st) = true /\ ds_ports (dnotify st) = ds_ports st.
+Proof.
+  intros (Hc & Hq & Hk & Hd). unfold dnotify. destruct (ds_kind st) eqn:Ek.
+  - pose proof (tick_later_ok _ _ _ Hk) as H. destruct (tick_later (ds_now st) (ds_sched st)) as [s' ev].
+    destruct H as (Hs' & Hne). cbn [ds_dirty ds_ports].
+    split; [|split; reflexivity]. unfold dcore. cbn [ds_ports ds_q ds_now ds_kind ds_sched ds_dirty].
+    split; [exact Hc|]. split; [destruct Hs' as (_ & Hq' & _); exact Hq'|]. split; [exact Hs'|intros _; exact Hne].
+  - assert (Hgo : dcore (mk_ds DEvent (ds_ports st) (ds_sched st) (Some (ds_now st)) (ds_q st ++ [ds_now st]) (ds_now st) true)).
+    { unfold dcore. cbn [ds_ports ds_q ds_now ds_kind ds_pend ds_dirty].
+      split; [exact Hc|]. split.
+      - intros x Hx. apply in_app_iff in Hx. destruct Hx as [Hx|[<-|[]]]; [auto|lia].
+      - split.
+        + intros p Hp. injection Hp as <-. apply in_app_iff. right. left. reflexivity.
+        + intros _. destruct (ds_q st); discriminate. }
+    destruct (ds_pend st) as [p|] eqn:Ep.
+    + destruct (p <=? ds_now st) eqn:El; cbn [ds_dirty ds_ports]; [|split; [exact Hgo|split; reflexivity]].
+      split; [|split; reflexivity]. unfold dcore. cbn [ds_ports ds_q ds_now ds_kind ds_pend ds_dirty].
+      split; [exact Hc|]. split; [exact Hq|]. split; [exact Hk|].
+      intros _ Hq0. specialize (Hk p eq_refl). rewrite Hq0 in Hk. destruct Hk.
+    + cbn [ds_dirty ds_ports]. split; [exact Hgo|split; reflexivity].
+Qed.
+
+Lemma retrieve_n_spec n : forall p p', retrieve_n n p = Some p' ->
+  content (p_in p') = skipn n (content (p_in p)) /\ p_has_comp p' = p_has_comp p.
+Proof.
+  induction n as [|n IH]; intros p p' H; cbn [retrieve_n] in H.
+  - injection H as <-. split; reflexivity.
+  - destruct (retrieve_incoming p) as [v p1 ns| |] eqn:Er; try discriminate.
+    destruct (retrieve_incoming_spec _ _ _ _ Er) as (Hin & _ & _ & _ & Hc & _).
+    destruct (IH _ _ H) as (H1 & H2). rewrite H1, Hin, H2, Hc. split; [|reflexivity].
+    destruct (content (p_in p)); [destruct n|]; reflexivity.
+Qed.
+
+(** after the activation of a draining component: either every input is empty, or it
+    took something (and so reports progress) *)
+Lemma retrieve_all_drained k ns : forall ps ps', retrieve_all ns ps = Some ps' ->
+  drains_ok k ns ps = true ->
+  Forall (fun p => p_has_comp p = true) ps ->
+  Forall (fun p => p_has_comp p = true) ps' /\
+  (unread ps' -> match k with DTick => took_any ns ps = true | DEvent => False end).
+Proof.
+  unfold drains_ok, took_any, unread.
+  induction ns as [|n r IH]; intros [|p ps] ps' H Hd Hc; cbn [retrieve_all] in H; try discriminate.
+  - injection H as <-. split; [constructor|]. intros (q & [] & _).
+  - destruct (retrieve_n n p) as [p1|] eqn:E1; [|discriminate].
+    destruct (retrieve_all r ps) as [r1|] eqn:E2; [|discriminate]. injection H as <-.
+    apply andb_true_iff in Hd. destruct Hd as [Hlen Hall]. cbn [combine forallb length] in *.
+    apply andb_true_iff in Hall. destruct Hall as [Hhd Htl].
+    inversion Hc as [|? ? Hcp Hcr]; subst.
+    destruct (retrieve_n_spec _ _ _ E1) as (Hin1 & Hc1).
+    assert (Hd' : ((length r =? length ps)%nat && forallb (fun np => match k with
+                     | DTick => (in_len (snd np) =? 0)%nat || (1 <=? fst np)%nat
+                     | DEvent => (in_len (snd np) <=? fst np)%nat end) (combine r ps)) = true).
+    { apply andb_true_iff. split; [|exact Htl]. apply Nat.eqb_eq in Hlen. apply Nat.eqb_eq. lia. }
+    destruct (IH ps r1 E2 Hd' Hcr) as (Hcr1 & Hur).
+    split; [constructor; [congruence|exact Hcr1]|].
+    intros (q & [<-|Hq] & Hne).
+    + (* the first port still has unread input *)
+      unfold in_len in Hne. rewrite Hin1 in Hne. cbn [fst snd] in Hhd.
+      destruct k.
+      * cbn [existsb fst snd]. apply orb_true_iff. left.
+        apply orb_true_iff in Hhd. destruct Hhd as [Hz|Hone].
+        -- apply Nat.eqb_eq in Hz. unfold in_len in Hz.
+           destruct (content (p_in p)); [destruct n; cbn in Hne; congruence|discriminate].
+        -- rewrite Hone, andb_true_r. apply negb_true_iff. apply Nat.eqb_neq. unfold in_len.
+           intro Hz. destruct (content (p_in p)); [destruct n; cbn in Hne; congruence|discriminate].
+      * apply Nat.leb_le in Hhd. unfold in_len in Hhd. rewrite skipn_all2 in Hne by exact Hhd. apply Hne. reflexivity.
+    + destruct k.
+      * cbn [existsb]. apply orb_true_iff. right. apply Hur. exists q. auto.
+      * apply Hur. exists q. auto.
+Qed.
+
+Lemma dstep_inv st a st' : dinv st -> dstep st a = Some st' -> dinv st'.
+Proof.
+  intros (Hcore & Hu) H. pose proof Hcore as (Hc & Hq & Hk & Hd).
+  destruct a as [i m|t ns extra|t|]; cbn [dstep] in H.
+  - (* deliver *)
+    destruct (nth_error (ds_ports st) i) as [p|] eqn:Ep; [|discriminate].
+    destruct (deliver m p) as [u p' nsx| |] eqn:Edl; try discriminate.
+    destruct (deliver_spec _ _ _ _ _ Edl) as (_ & Hin & _ & _ & _ & Hcomp).
+    assert (Hcp : p_has_comp p = true).
+    { rewrite Forall_forall in Hc. apply Hc. eapply nth_error_In; eauto. }
+    assert (Hns : nsx = if (size (p_in p) =? 0)%Z then [NRecv] else []).
+    { unfold deliver in Edl. destruct (negb (can_push (p_in p))); [discriminate|].
+      destruct (push m (p_in p)); [|discriminate]. injection Edl as _ _ <-. rewrite Hcp. reflexivity. }
+    set (st1 := mk_ds (ds_kind st) (set_nth i p' (ds_ports st)) (ds_sched st) (ds_pend st) (ds_q st) (ds_now st) (ds_dirty st)) in *.
+    assert (Hcore1 : dcore st1).
+    { unfold dcore. cbn [st1 ds_ports ds_q ds_now ds_kind ds_sched ds_pend ds_dirty].
+      split; [|split; [exact Hq|split; [exact Hk|exact Hd]]].
+      rewrite Forall_forall in *. intros q Hq1.
+      apply In_nth_error in Hq1. destruct Hq1 as (k & Hk1).
+      destruct (Nat.eq_dec i k) as [->|Hne].
+      - rewrite nth_set_nth_eq in Hk1 by (eapply nth_error_lt; eauto). injection Hk1 as <-. congruence.
+      - rewrite nth_set_nth_neq in Hk1 by exact Hne. apply Hc. eapply nth_error_In; eauto. }
+    rewrite Hns, has_notif_single in H.
+    destruct (size (p_in p) =? 0)%Z eqn:Ez; injection H as <-.
+    + destruct (dnotify_core st1 Hcore1) as (A & B & _). split; [exact A|intros _; exact B].
+    + split; [exact Hcore1|]. intros _. apply Hu. exists p. split; [eapply nth_error_In; eauto|].
+      unfold in_len. unfold size in Ez. destruct (content (p_in p)); [cbn in Ez; discriminate|discriminate].
+  - (* activation *)
+    destruct (existsb (N.eqb t) (ds_q st) && forallb (N.leb t) (ds_q st) && drains_ok (ds_kind st) ns (ds_ports st)) eqn:En; [|discriminate].
+    apply andb_true_iff in En. destruct En as [En Hdr]. apply andb_true_iff in En. destruct En as [Hex Hall].
+    apply existsb_exists in Hex. destruct Hex as (x & Hx & Hxt). apply N.eqb_eq in Hxt. subst x.
+    assert (Hmin : forall x, In x (ds_q st) -> t <= x).
+    { intros x Hin. rewrite forallb_forall in Hall. specialize (Hall x Hin). lia. }
+    destruct (retrieve_all ns (ds_ports st)) as [ps'|] eqn:Er; [|discriminate].
+    destruct (retrieve_all_drained (ds_kind st) ns _ _ Er Hdr Hc) as (Hc' & Hleft).
+    set (st1 := mk_ds (ds_kind st) ps' (mark_handled (ds_sched st) t) None (remove1 t (ds_q st)) t false) in *.
+    assert (Hcore1 : dcore st1).
+    { unfold dcore. cbn [st1 ds_ports ds_q ds_now ds_kind ds_sched ds_pend ds_dirty].
+      split; [exact Hc'|]. split; [intros x Hx'; apply Hmin; eapply in_remove1; eauto|].
+      split; [|discriminate].
+      destruct (ds_kind st); [exact (handle_inv _ _ _ t Hk Hx Hmin)|discriminate]. }
+    destruct (ds_kind st) eqn:Ekd.
+    + destruct (took_any ns (ds_ports st) || extra) eqn:Epr; injection H as <-.
+      * destruct (dnotify_core st1 Hcore1) as (A & B & _). split; [exact A|intros _; exact B].
+      * split; [exact Hcore1|]. cbn [st1 ds_ports ds_dirty]. intro Hun.
+        apply Hleft in Hun. apply orb_false_iff in Epr. destruct Epr as [Epr _]. congruence.
+    + injection H as <-. split; [exact Hcore1|]. cbn [st1 ds_ports ds_dirty]. intro Hun. destruct (Hleft Hun).
+  - (* time passes *)
+    destruct ((ds_now st <=? t) && forallb (N.leb t) (ds_q st)) eqn:En; [|discriminate].
+    injection H as <-. apply andb_true_iff in En. destruct En as [Hle Hall].
+    assert (Hmin : forall x, In x (ds_q st) -> t <= x).
+    { intros x Hin. rewrite forallb_forall in Hall. specialize (Hall x Hin). lia. }
+    split; [|exact Hu]. unfold dcore. cbn [ds_ports ds_q ds_now ds_kind ds_sched ds_pend ds_dirty].
+    split; [exact Hc|]. split; [exact Hmin|]. split; [|exact Hd].
+    destruct (ds_kind st); [apply (advance_inv _ _ (ds_now st)); [exact Hk|lia|exact Hmin]|exact Hk].
+  - injection H as <-. destruct (dnotify_core st Hcore) as (A & B & _). split; [exact A|intros _; exact B].
+Qed.
+
+Lemma dsteps_inv h : forall st st', dinv st -> dsteps st h = Some st' -> dinv st'.
+Proof.
+  induction h as [|a r IH]; intros st st' Hi H; cbn [dsteps] in H; [injection H as <-; exact Hi|].
+  destruct (dstep st a) as [st1|] eqn:E; [|discriminate].
+  eapply IH; [|exact H]. eapply dstep_inv; eauto.
+Qed.
+
+(** a freshly built component: empty ports, nothing scheduled *)
+Definition dinit (k : dkind) (caps : list (Z * Z)) (period : N) : dstate :=
+  mk_ds k (mk_ports caps) (mk_sched false 0 period false None) None [] 0 false.
+
+Lemma dinit_inv k caps period : 1 <= period -> dinv (dinit k caps period).
+Proof.
+  intro Hp. unfold dinit, dinv, dcore. cbn [ds_ports ds_q ds_now ds_kind ds_sched ds_pend ds_dirty].
+  split; [split; [|split; [intros x []|split; [|discriminate]]]|].
+  - unfold mk_ports. rewrite Forall_forall. intros p Hin. apply in_map_iff in Hin. destruct Hin as (x & <- & _). reflexivity.
+  - destruct k; [|discriminate]. unfold sched_inv. cbn [s_period s_has s_next s_handled].
+    split; [exact Hp|]. split; [intros x []|]. split; [discriminate|]. intros h H. discriminate.
+  - intros (p & Hin & Hne). unfold mk_ports in Hin. apply in_map_iff in Hin. destruct Hin as (x & <- & _).
+    exfalso. apply Hne. reflexivity.
+Qed.
